@@ -43,7 +43,7 @@ def main():
                         rep = json.load(open(rp))
                         fi = rep.get("failing_input")
                         detail = (" no-failing-input-found" if "no-failing-input-found" in l else "") + \
-                            " | broke: " + "; ".join(x["stage"] for x in rep["no_longer_checks"]) + \
+                            " | broke: " + "; ".join(x["stage"] + ("(" + x["detail"][:160] + ")" if x["stage"] != "correspondence" else "") for x in rep["no_longer_checks"]) + \
                             (" | input: " + json.dumps(fi)[:300] if fi else "")
                     except Exception as e:  # noqa: BLE001
                         detail = " (replay unreadable: %s)" % e
